@@ -1,0 +1,21 @@
+//go:build verif
+
+package server
+
+// Verification hooks (see /verif/DESIGN.md section 6): compiled only with -tags verif.
+
+// VerifManualClock stops LockDB from starting its own clock / sweeper goroutines, so a harness can drive
+// currentTime, checkTimeTimeOut and checkTimeExpried itself.
+var VerifManualClock bool
+
+// VerifPointHook, when set, is called at the yield points between two critical sections (never with a shard
+// mutex held); a baton scheduler parks the calling goroutine there.
+var VerifPointHook func(int)
+
+func verifManualClock() bool { return VerifManualClock }
+
+func verifPoint(n int) {
+	if VerifPointHook != nil {
+		VerifPointHook(n)
+	}
+}
